@@ -628,7 +628,7 @@ func (vc *VC) useContract(in ssa.Instruction, ct *FuncContract, sig *types.Signa
 	}
 	pre := h.clone()
 	mk := func(cur, old Heap, results [][]string) *Eval {
-		ev := &Eval{vc: vc, cur: cur.clone(), old: old.clone(), env: map[string]EVal{}, bound: map[string]EVal{}}
+		ev := &Eval{vc: vc, cur: cur.clone(), old: old.clone(), env: map[string]EVal{}, bound: map[string]EVal{}, pkgPath: contractPkg(ct)}
 		for i, a := range args {
 			if i < len(names) && names[i] != "" && names[i] != "_" {
 				ev.env[names[i]] = EVal{T: a.Type(), Terms: vc.val(a)}
